@@ -11,7 +11,7 @@ EXPLANATION = ("C13: cnl::to_chars(first, last, value[, base]) is executed symbo
                "last and errc{}; failure => p == last and errc::value_too_large.  to_chars_static always succeeds.")
 BOUNDS = {"quick": "integers i8,u8,i16,u16,i32,u32 (base 10; bases 2,8,16,36 for 8/16-bit; symbolic base for 8-bit); scaled_integer<i8/u8, power<E>> E in {-3,0,1}; buffer lengths 0..capacity+2; to_chars_static for the same integer types; unit kernel to_chars_positive: digit strings of length 1..6, decimal exponent in [-99,99], buffer length 0..12 (covers the layout stage for every binary exponent); descale<int16_t,10> termination for (i8,2^12), (u8,2^9), (i8,2^-12), unwinding bound |E|+|E|/3+40",
           "thorough": "adds i64/u64 integers, 16-bit symbolic base, scaled exponents -8..8 and 16-bit reps; to_chars_positive with digit strings up to 19 and buffers up to 26; descale<int16_t/int32_t> for exponents up to +-16/+-24.  Outside: descale<int64_t> termination at |E| >= 53 (solver does not finish), to_string/operator<< (heap, iostream)"}
-OPTS = {"quick": {"kernel_budget": 400}, "thorough": {"kernel_budget": 3000}}
+OPTS = {"quick": {"kernel_budget": 400}, "thorough": {"kernel_budget": 900}}
 EVALUE_TOO_LARGE = 75  # EOVERFLOW on Linux = std::errc::value_too_large
 
 CAPS = {"i8": 4, "u8": 3, "i16": 6, "u16": 5, "i32": 11, "u32": 10, "i64": 20, "u64": 20}
